@@ -24,6 +24,9 @@ RULE = (
     "equals prop.annotation; non-trivial = accepted value on a model with >=1 non-leaf property "
     "element; distinct = canon(recipe, value)"
 )
+RULE += (
+    ' Parsed-mode recipes go through the documented loader a quarter of the time.'
+)
 ASSUMPTIONS = [
     "type-checker reading: Any; None; bool; int (bool is a subclass); float accepts int (PEP 484 tower); str; List[T]; Union; classes by isinstance; NotPassed only under Maybe",
     "defaults that ref6 does not judge valid for their own schema are removed from the generated recipe (the property quantifies over valid defaults)",
@@ -51,6 +54,32 @@ def sanitize_defaults(recipe):
                 ok = False
             if not ok:
                 del kw["default"]
+    # a subclass INHERITS its parent's default, which must then be valid for the subclass too (it may add required
+    # properties): otherwise the default is dropped where it is defined
+    for _ in range(4):
+        changed = False
+        for node in idx.values():
+            if node.get("kind") != "Object" or not node.get("base") or "default" in node.get("kw", {}):
+                continue
+            kw_flat = R.flat_class(node, idx)[0]
+            if "default" not in kw_flat:
+                continue
+            schema = R.to_schema(node, idx)
+            schema = {k: v for k, v in schema.items() if k != "default"} if isinstance(schema, dict) else schema
+            try:
+                ok = ref6.validate(schema, copy.deepcopy(kw_flat["default"]), _DEV) is True
+            except RecursionError:
+                ok = False
+            if not ok:
+                anc = node
+                while anc.get("base"):
+                    anc = idx[anc["base"]["ref"]] if "ref" in anc["base"] else anc["base"]
+                    if "default" in anc.get("kw", {}):
+                        del anc["kw"]["default"]
+                        changed = True
+                        break
+        if not changed:
+            break
     # a declared property that also matches a patternProperties regex is governed by both schemas:
     # its default must be valid for the pattern schema too (else it is legitimately returned as-is)
     import re as _re
@@ -78,7 +107,15 @@ def sanitize_defaults(recipe):
 
 @st.composite
 def cases(draw):
-    recipe = sanitize_defaults(draw(R.recipes(CFG, kinds=["Object"])))
+    recipe = draw(R.recipes(CFG, kinds=["Object"]))
+    excluded = [0]
+    if findings.is_open(PID, "pyname-key-collision"):
+        # exclusion by construction, in DEFAULTS too (an omitted property feeds its default through the same code)
+        names0 = cc.renamed_pynames_recipe(recipe) | cc.renamed_pynames_schema(R.to_schema(recipe))
+        for node in R.index(recipe).values():
+            if "default" in node.get("kw", {}):
+                node["kw"]["default"] = cc.strip_keys(node["kw"]["default"], names0, excluded)
+    recipe = sanitize_defaults(recipe)
     # nested defaults may have become invalid for enclosing schemas' defaults: one more pass
     recipe = sanitize_defaults(recipe)
     schema = R.to_schema(recipe)
@@ -88,13 +125,12 @@ def cases(draw):
         if draw(st.integers(0, 4)) == 0:
             v = draw(perturb(v))
         values.append(v)
-    excluded = [0]
     if findings.is_open(PID, "pyname-key-collision"):
         # exclusion by construction: keep the search budget for everything else
         names = cc.renamed_pynames_recipe(recipe) | cc.renamed_pynames_schema(schema)
         values = [cc.strip_keys(v, names, excluded) for v in values]
     return {"mode": draw(st.sampled_from(["dsl", "dsl", "parsed"])), "recipe": recipe, "values": values,
-            "excluded": excluded[0]}
+            "excluded": excluded[0], "pipeline": draw(st.sampled_from(observe.PIPELINES))}
 
 
 def namespace(classes):
@@ -207,7 +243,7 @@ def instances(result, acc, depth=0):
 def predicate(case, stats):
     recipe = case["recipe"]
     if case["mode"] == "parsed":
-        parsed = observe.safe_parse(R.to_schema(recipe))
+        parsed = observe.safe_parse(R.to_schema(recipe), case.get("pipeline"))
         if parsed[0] != "ok":
             stats.case(canon(case), False, ["parse-refused"])
             return []
